@@ -3,7 +3,7 @@
 WT=/tmp/wt/confirm
 git -C /repo worktree remove --force $WT 2>/dev/null
 git -C /repo worktree add -q --detach $WT HEAD || exit 1
-for d in ${SEEDSRC:-/tmp/seed_out}/C*/[ABC]; do
+for d in ${SEEDSRC:-/tmp/seed_out}/C*/[A-Z]; do
   id=$(basename $(dirname $d)); v=$(basename $d); name="$id-$v"
   [ -f $d/patch.diff ] && [ -f $d/demo.py ] || { echo "$name: incomplete"; continue; }
   [ -f /verif/seeded/$name/meta.json ] && continue
